@@ -568,6 +568,17 @@ class PX:
         if k == 'bin':
             a = self.operand(st, fid, fn, rv['a'], mir)
             b = self.operand(st, fid, fn, rv['b'], mir)
+            if rv['op'] in ('SubWithOverflow', 'AddWithOverflow', 'MulWithOverflow') and a[0] == 'int' and b[0] == 'int':
+                x, y = a[1], b[1]
+                r = {'Sub': x - y, 'Add': x + y, 'Mul': x * y}[rv['op'][:3]]
+                return ('tuple', (INT(r), INT(1 if (r < 0 or r >= 1 << 64) else 0)))
+            if rv['op'] in ('SubWithOverflow', 'AddWithOverflow', 'MulWithOverflow') and not (a[0] == 'int' and b[0] == 'int'):
+                # (result, overflowed): unsigned subtraction overflows iff a < b; additions of small constants to lengths cannot overflow
+                base = rv['op'][:3]
+                if base == 'Sub':
+                    return ('tuple', (('bin', 'Sub', a, b), ('bin', 'Lt', a, b)))
+                if base == 'Add' and ((a[0] == 'len' and b[0] == 'int' and 0 <= b[1] < 1 << 32) or (b[0] == 'len' and a[0] == 'int' and 0 <= a[1] < 1 << 32)):
+                    return ('tuple', (('bin', 'Add', a, b), FALSE))
             return self.binop(st, rv['op'], a, b)
         if k == 'un':
             a = self.operand(st, fid, fn, rv['o'], mir)
@@ -1055,6 +1066,10 @@ class PX:
         target = self.resolve(name, t, args)
         if target is not None and target in self.p.bodies and target not in self.opaque and self.inline \
                 and (self.inline_loops or not self.p.has_loops(target)) and depth < self.max_depth:
+            if self.p.bodies[target]['kind'] == 'Closure' and len(args) == 2 and args[1][0] == 'tuple' \
+                    and self.p.bodies[target]['mir']['argc'] == 1 + len(args[1][1]) and ('ops::Fn' in t['f'] or 'FnOnce' in t['f'] or 'FnMut' in t['f']):
+                # rust-call ABI: Fn::call(closure, (a, b, ..)) - the closure body takes its arguments spread
+                args = [args[0]] + list(args[1][1])
             st.events.append(('enter', target, tuple(args), t['sp'], fn, bi))
             outs = self._run(st, target, args, depth + 1)
             res = []
@@ -1174,6 +1189,13 @@ class PX:
             return self._run(st, clos[1], [clos] + list(args), depth + 1)
         if clos[0] == 'fn' and clos[1] in self.p.bodies and not self.p.has_loops(clos[1]):
             return self._run(st, clos[1], list(args), depth + 1)
+        if clos[0] == 'fn' and clos[1] not in self.p.bodies:
+            # a tuple-variant / tuple-struct constructor used as a function (`map_err(Error::Variant)`)
+            owner, _, vname = clos[1].rpartition('::')
+            if (owner, vname) in self.p.varidx:
+                return [(st, ('adt', owner, vname, tuple(args)))]
+            if owner in self.p.facts.adts and self.p.facts.adts[owner]['kind'] == 'struct' and owner.rpartition('::')[2] == vname:
+                return [(st, ('adt', owner, vname, tuple(args)))]
         if clos[0] == 'fn' and clos[1] not in self.p.bodies and self.models.totality(clos[1]) == 'total':
             # an external function item used as a callback (Vec::new, String::new, ...): a pure application
             return [(st, ('pure', clos[1], tuple(args)))]
